@@ -116,3 +116,24 @@ Definition scheck_all := scheck_all_from 0%N.
 Definition scope_probes (cs : list scase) : N := N.of_nat (fold_left (fun a c => a + length (snd c)) cs 0).
 Definition scopes_seen_synchronized (cs : list scase) : N :=
   N.of_nat (fold_left (fun a c => a + fold_left (fun b kf => b + length (filter (fun x => x) (snd kf))) (snd c) 0) cs 0).
+
+(* ---- third comparison: the lock discipline of the package tables (TableModel.v).  For every operation of the
+   alphabet `lop` the harness holds the mutex of the current package (as every writer of its tables does) and lets
+   another goroutine evaluate the operation: `waited` = the goroutine ended up in sync.Mutex.Lock.
+     0 ok;  1 the operation waited although the model says it uses no table (needless locking; no safety consequence);
+     2 the operation uses a table of the package and did NOT wait: it reads or writes the Go map without the mutex
+       while a writer may be inside (TableProofs.unlocked_reader_overlaps_writer_refuted); the operation is the
+       failing input. ---- *)
+From C17 Require Import TableModel.
+Definition tcase := (lop * bool)%type.
+Definition tcheck_case (c : tcase) : N :=
+  let '(o, waited) := c in
+  if uses_tables o then (if waited then 0%N else 2%N) else (if waited then 1%N else 0%N).
+Fixpoint tcheck_all_from (i : N) (cs : list tcase) : list (N * N) :=
+  match cs with
+  | [] => []
+  | c :: cs' => let r := tcheck_case c in (if N.eqb r 0 then [] else [(i, r)]) ++ tcheck_all_from (N.succ i) cs'
+  end.
+Definition tcheck_all := tcheck_all_from 0%N.
+Definition operations_seen_waiting_for_the_package_mutex (cs : list tcase) : N :=
+  N.of_nat (length (filter (fun c => snd c) cs)).
